@@ -22,7 +22,9 @@ RULE = ('all ordered pairs (a, b) of rectangular tables: width 1 over K6 = {None
         'width 2 over K3 x K3 = {None, i1, s1}^2, every row count up to the bound on each side (empty sides '
         'included), plus all width-1 x width-2 pairs, plus width 3 (columns over {None, i1} x {i1, s1} x {None, s1}, '
         '<= 2 rows a side) so that all 6 column permutations of b - including the non-self-inverse 3-cycles - are '
-        'enumerated for the record variants; x complement/intersection/diff/hashcomplement/'
+        'enumerated for the record variants; plus hash-twin alphabets (cells over {-1, -2, 0, 2**61-1}: different '
+        'values with equal hashes, width 1 and 2) and header-cell alphabets (cells drawn from the field names of '
+        'a / of b, so data rows can equal the same, renamed or permuted header row of either side); x complement/intersection/diff/hashcomplement/'
         'hashintersection/recordcomplement/recorddiff x strict on/off x buffersize in {None, 1} x presorted=True '
         '(only on pairs that are already lexically sorted under the reference order) x b header same/renamed x '
         'every column permutation of b for the record variants x row-container type of each side independently '
@@ -44,6 +46,8 @@ ASSUMPTIONS = ['cell domain limited to one or two representatives per type class
 
 HDR = {1: ('x',), 2: ('x', 'y'), 3: ('x', 'y', 'z')}
 RENAMED = {1: ('p',), 2: ('p', 'q'), 3: ('p', 'q', 'r')}
+
+HASH_TWINS = (-1, -2, 0, 2 ** 61 - 1)
 
 # row-container axis: how each input table is handed to petl (the property is about rows as values)
 #   'tuple' tuple of tuples; 'list' list of lists; 'wrap' etl.wrap(list of lists) (a petl Table, list rows);
@@ -95,7 +99,15 @@ def _alphabets(seed):
             'w2': [(u, v) for u in k3 for v in k3],
             'w1s': [(v,) for v in k3],
             'w2s': [(u, v) for u in (k3[0], k3[1]) for v in (k3[0], k3[2])],
-            'w3': [(u, v, w) for u in (k3[0], k3[1]) for v in (k3[1], k3[2]) for w in (k3[0], k3[2])]}
+            'w3': [(u, v, w) for u in (k3[0], k3[1]) for v in (k3[1], k3[2]) for w in (k3[0], k3[2])],
+            # different cells with EQUAL hashes: hash(-1) == hash(-2), hash(0) == hash(2**61 - 1) (CPython, 64 bit),
+            # so that different rows collide in any hash-keyed structure
+            'w1h': [(v,) for v in HASH_TWINS],
+            'w2h': [(u, v) for u in HASH_TWINS[:2] for v in HASH_TWINS[2:]],
+            # cells drawn from the field names: a data row can be EQUAL to the header row of a / of b
+            # (same, renamed or column-permuted header)
+            'w1n': [(v,) for v in (HDR[1][0], RENAMED[1][0], None)],
+            'w2n': [HDR[2], (HDR[2][1], HDR[2][0]), RENAMED[2], (HDR[2][0], None)]}
 
 
 def setup(tier, seed):
@@ -127,6 +139,9 @@ def base_forms(wa, wb):
         f.append(('diff', strict, None, False, 'same'))
     f.append(('complement', False, None, False, 'renamed'))
     f.append(('intersection', False, None, False, 'renamed'))
+    f.append(('hashcomplement', False, None, False, 'renamed'))
+    f.append(('hashintersection', False, None, False, 'renamed'))
+    f.append(('diff', False, None, False, 'renamed'))
     if wa == wb:
         for p in _perms(wa):
             for strict in (False, True):
@@ -345,6 +360,10 @@ def _plan(tier):
                 ('w3', 'w3', 2, 2, 'base', 'n+m<=3'),       # width 3: all 6 column permutations of b
                 ('w1s', 'w1s', 2, 2, 'cont', 'all'),        # row-container axis (15 non-plain combinations)
                 ('w2s', 'w2s', 2, 2, 'cont', 'n+m<=3'),
+                ('w1h', 'w1h', 2, 2, 'base', 'all'),        # hash-equal but different cells
+                ('w2h', 'w2h', 2, 2, 'base', 'all'),
+                ('w1n', 'w1n', 2, 2, 'base', 'all'),        # data rows that equal a header row
+                ('w2n', 'w2n', 2, 2, 'base', 'all'),
                 ('w1s', 'w1s', 2, 2, 'kind', 'n+m<=3'),     # operand-kind axis (65 combinations with a view kind)
                 ('w2s', 'w2s', 2, 2, 'kind', 'n+m<=3')]
     return [('w1', 'w1', 3, 3, 'base', 'all'),
@@ -362,7 +381,11 @@ def _plan(tier):
             ('w1s', 'w1s', 3, 3, 'cont', 'all'),
             ('w2s', 'w2s', 2, 2, 'cont', 'all'),
             ('w1s', 'w1s', 2, 2, 'kind', 'all'),
-            ('w2s', 'w2s', 2, 2, 'kind', 'all')]
+            ('w2s', 'w2s', 2, 2, 'kind', 'all'),
+            ('w1h', 'w1h', 3, 3, 'base', 'all'),
+            ('w2h', 'w2h', 3, 3, 'base', 'n+m<=5'),
+            ('w1n', 'w1n', 3, 3, 'base', 'all'),
+            ('w2n', 'w2n', 3, 3, 'base', 'n+m<=5')]
 
 
 def items(tier, seed):
